@@ -177,3 +177,6 @@ def run(program, rep, tier):
     c03.check_mapping(program, rep)
     for o in rep.obs[n0:]:
         o.rule = 'C20.cross-talk'
+    from rules import c13
+    c13.instance_state(program, rep, 'C20.instances')
+
